@@ -56,6 +56,12 @@ func lockEvent(cc *ssa.CallCommon) (mutex string, op string) {
 		// sync.Locker interface: c.L.Lock()
 		switch cc.Method.Name() {
 		case "Lock", "Unlock":
+			// shared := c.m.RLocker(); shared.Lock(): the read side of c.m
+			if rc, ok := resolveVal(cc.Value).(*ssa.Call); ok {
+				if cal := rc.Call.StaticCallee(); cal != nil && cal.Name() == "RLocker" && cal.Signature.Recv() != nil && isNamedType(cal.Signature.Recv().Type(), "sync", "RWMutex") && len(rc.Call.Args) == 1 {
+					return path(rc.Call.Args[0]), "R" + cc.Method.Name()
+				}
+			}
 			return path(cc.Value), cc.Method.Name()
 		}
 		return "", ""
